@@ -449,4 +449,59 @@ def bind (P : Params) (cfg : Cfg) (tag : Tag) (ty : Ty) (init : Val) (src : Src)
   | .struct fs => bindAt P cfg tag cfg.maxDepth fs init { src := src } 0
   | _ => .err .conv
 
+
+/-! ### several sources: Bind / BindTo (bindMultiSource), app.Context.Bind -/
+
+def taggedUnder (tag : Tag) (h : FieldHdr) : Bool := !(h.tag tag).isEmpty && (h.tag tag) != B "-"
+
+mutual
+/-- HasStructTag: an exported field carries the tag, here or in an embedded struct -/
+def hasTagFld (tag : Tag) (h : FieldHdr) : Ty → Bool
+  | .struct fs => h.exported && (taggedUnder tag h || (h.anon && hasTagFs tag fs))
+  | .ptr (.struct fs) => h.exported && (taggedUnder tag h || (h.anon && hasTagFs tag fs))
+  | _ => h.exported && taggedUnder tag h
+def hasTagFs (tag : Tag) : List Fld → Bool
+  | [] => false
+  | (h, t) :: rest => hasTagFld tag h t || hasTagFs tag rest
+end
+
+mutual
+/-- the type with its `default` tags removed: a pass of bindFieldsWithDepth with `skipDefaults` -/
+def stripTy : Ty → Ty
+  | .struct fs => .struct (stripFs fs)
+  | .ptr t => .ptr (stripTy t)
+  | .slice t => .slice t
+  | .map t => .map t
+  | .prim p => .prim p
+def stripFs : List Fld → List Fld
+  | [] => []
+  | (h, t) :: rest => ({ h with dflt := [] }, stripTy t) :: stripFs rest
+end
+
+/-- one pass over the sources: each source whose tag occurs in the type binds in turn, the first
+    error ends the bind -/
+def bindPass (P : Params) (cfg : Cfg) (fs : List Fld) (ty : Tag → Ty) : List Src → Val → Outcome
+  | [], cur => .ok cur
+  | s :: rest, cur =>
+    if hasTagFs s.kind fs then
+      match bind P cfg s.kind (ty s.kind) cur s with
+      | .ok v => bindPass P cfg fs ty rest v
+      | o => o
+    else bindPass P cfg fs ty rest cur
+
+/-- bindMultiSource as shipped: every source applies the defaults of the fields it does not find -/
+def bindMultiAsIs (P : Params) (cfg : Cfg) (fs : List Fld) (init : Val) (srcs : List Src) : Outcome :=
+  if srcs.isEmpty then .err .conv else bindPass P cfg fs (fun _ => .struct fs) srcs init
+
+/-- bindMultiSource: with one source the plain bind; with several, the defaults are applied first
+    (a bind from a source without values) and the sources then bind without defaults — so a source
+    that lacks a key never overwrites what an earlier source bound -/
+def bindMulti (P : Params) (cfg : Cfg) (fs : List Fld) (init : Val) (srcs : List Src) : Outcome :=
+  if srcs.isEmpty then .err .conv
+  else if srcs.length == 1 then bindPass P cfg fs (fun _ => .struct fs) srcs init
+  else
+    match bindPass P cfg fs (fun _ => .struct fs) (srcs.map fun s => { s with kvs := [] }) init with
+    | .ok v => bindPass P cfg fs (fun _ => .struct (stripFs fs)) srcs v
+    | o => o
+
 end Rivaas.Bind
